@@ -168,6 +168,31 @@ def function_control(chk, MX, H):
             chk.violation("function-control-raises", dict(rep, error=repr(e)))
 
 
+def caller_table(chk, MX, H):
+    """a deflection table handed over as the caller's own NumPy array: the recorded control state is the aircraft's own copy"""
+    rng = chk.rng
+    for k in range(chk.q(2, 6)):
+        ac = gen.simple_wing_aircraft(N=4, reid=False)
+        tbl = np.array([[0.0, round(rng.uniform(-4, 4), 2)], [1.0, round(rng.uniform(-4, 4), 2)]])
+        keep = tbl.copy()
+        rep = dict(kind="controls", aircraft=ac, setting={"elevator": keep.tolist()})
+        chk.case(dict(kind="caller-table", k=k), nontrivial=True)
+        chk.count("setting=caller-owned-table")
+        try:
+            sc = gen.build_scene(MX, {"scene": {"atmosphere": {"rho": 0.0023769}}}, [("a", ac, {"velocity": 80.0, "alpha": 2.0}, {})])
+            sc.set_aircraft_control_state(control_state={"elevator": tbl})
+            before = sc.solve_forces()["a"]["total"]["Cm"]
+            tbl[:, 1] += 3.0                      # the caller goes on using its array
+            rec = np.array(sc._airplanes["a"].current_control_state["elevator"], dtype=float)
+            sc.control_derivatives()              # a query: re-applies the recorded state
+            after = sc.solve_forces()["a"]["total"]["Cm"]
+            if not np.array_equal(rec, keep) or abs(after - before) > 1e-9 * max(1.0, abs(before)):
+                chk.violation("record-follows-callers-array", dict(rep, recorded=rec.tolist(), Cm_before=before, Cm_after_query=after,
+                                                                   what="the recorded deflection table changed with the caller's array"))
+        except Exception as e:
+            chk.violation("caller-table-raises", dict(rep, error=repr(e)))
+
+
 def listed_aircraft(chk, MX, H):
     """several aircraft listed in the scene input, some with a "control_state" and some without (documented: all deflections zero then): every
     aircraft's sections carry the mapping of its own control inputs"""
@@ -278,6 +303,7 @@ def run(chk):
     unit_control(chk, MX)
     function_control(chk, MX, H)
     listed_aircraft(chk, MX, H)
+    caller_table(chk, MX, H)
     failing, nfiles, errors = common.run_cases("C15", IMPORTS, [], cases)
     chk.cov["traces_validated_against_impl"] = len(cases)
     chk.cov["correspondence_cases"] = len(cases)
